@@ -1,3 +1,4 @@
+use std::io::{ErrorKind, Write};
 use std::path::PathBuf;
 use std::{collections::HashMap, fs};
 
@@ -9,16 +10,36 @@ use crate::model::{Content, State};
 
 pub fn write_file(key: &String, content: &Content, to: &PathBuf) -> std::io::Result<()> {
     let path = to.join(format!("{}.md", key));
-    let temp = to.join(format!("{}.md.tmp", key));
 
     // never truncate the note itself: a failed or interrupted write must leave the old text
-    // intact, so the new text goes to a sibling file that then replaces the note atomically
-    fs::write(&temp, content.as_str())
-        .and_then(|_| fs::rename(&temp, &path))
-        .map_err(|err| {
-            let _ = fs::remove_file(&temp);
-            err
-        })
+    // intact, so the new text goes to a new sibling file that then replaces the note atomically
+    let (temp, mut file) = create_temp_file(key, to)?;
+
+    let written = file.write_all(content.as_bytes());
+    drop(file);
+
+    written.and_then(|_| fs::rename(&temp, &path)).map_err(|err| {
+        let _ = fs::remove_file(&temp);
+        err
+    })
+}
+
+// Creates the temporary sibling of a note: `<key>.md.tmp`, or `<key>.md.1.tmp`, `<key>.md.2.tmp`, ...
+// when that name is taken. The file is always created by this call (O_EXCL), an existing file of
+// that name belongs to somebody else and is neither written to nor removed.
+fn create_temp_file(key: &String, to: &PathBuf) -> std::io::Result<(PathBuf, fs::File)> {
+    let mut attempt: u64 = 0;
+    loop {
+        let temp = match attempt {
+            0 => to.join(format!("{}.md.tmp", key)),
+            n => to.join(format!("{}.md.{}.tmp", key, n)),
+        };
+        match fs::OpenOptions::new().write(true).create_new(true).open(&temp) {
+            Ok(file) => return Ok((temp, file)),
+            Err(err) if err.kind() == ErrorKind::AlreadyExists => attempt += 1,
+            Err(err) => return Err(err),
+        }
+    }
 }
 
 pub fn new_for_path(base_path: &PathBuf) -> State {
